@@ -208,6 +208,33 @@ def gen_edgecrop(rng, thorough):
     return out
 
 
+def gen_cropext(rng, thorough):
+    """crop EXTENSION as tj3Transform / jpegtran reach it: JXFORM_NONE, region wider and/or taller than the image
+    (do_crop_ext_zero): extension in x only, y only, both; source with whole / partial edge iMCUs; offsets 0, inside
+    the allowed range, on its boundary, and just beyond (refused)"""
+    out = []
+    for name in ("444", "420", "422", "411", "440", "gray") + (("441",) if thorough else ()):
+        fac, cs = STD[name], (1 if name == "gray" else 3)
+        iw, ih = 8 * fac[0][0], 8 * fac[0][1]
+        for rep in range(6 if thorough else 3):
+            W = rng.range(1, 2) * iw + rng.choice([0, rng.range(1, iw - 1)])
+            H = rng.range(1, 2) * ih + rng.choice([0, rng.range(1, ih - 1)])
+            mode = ["x", "y", "xy"][rep % 3]
+            cw = W + rng.range(1, 3 * iw) if "x" in mode else rng.range(1, W)
+            ch = H + rng.range(1, 3 * ih) if "y" in mode else rng.range(1, H)
+            maxx = cw - W if "x" in mode else W - cw
+            maxy = ch - H if "y" in mode else H - ch
+            cx = rng.choice([0, (maxx // iw) * iw, rng.range(0, maxx // iw) * iw, (maxx // iw + 1) * iw if rng.chance(1, 6) else 0])
+            cy = rng.choice([0, (maxy // ih) * ih, rng.range(0, maxy // ih) * ih, (maxy // ih + 1) * ih if rng.chance(1, 6) else 0])
+            path = rng.choice([0, 0, 1])
+            if path == 1 and rng.chance(1, 2):
+                cx += rng.range(0, iw - 1) if cx + iw - 1 <= maxx else 0
+            x = [0, 0, rng.below(2), 0, 1, cw, 1, ch, 1, cx, 1, cy, 1, rng.below(16)]
+            toks = [W, H, 8, cs, len(fac)] + [v for f in fac for v in f] + [1, rng.below(4), 50, rng.next() % (1 << 40), 1, path, 1] + x
+            out.append(("case " + " ".join(map(str, toks)), "cropext", {"identity": False}))
+    return out
+
+
 def gen_tjgrid(rng, thorough):
     """(b) tj3Transform crops on 4:4:1 / 4:1:1 / 4:2:2 / 4:4:0 sources, every operation class, origins on every
     multiple of 8 up to 64 in both directions: acceptance must follow the DESTINATION iMCU grid and the result
@@ -406,9 +433,40 @@ def crop_region(x, dw, dh, imw, imh):
     cy = cy if cyset else 0
     w = cw if cwset else dw - cx
     h = ch if chset else dh - cy
-    xoff = dw - w - cx if cxset == 2 else cx
-    yoff = dh - h - cy if cyset == 2 else cy
-    return xoff // imw, yoff // imh, w + xoff % imw, h + yoff % imh
+    ex, ey = w > dw, h > dh            # crop extension (JXFORM_NONE only): the image is placed inside a larger canvas
+    xoff = (w - dw - cx if ex else dw - w - cx) if cxset == 2 else cx
+    yoff = (h - dh - cy if ey else dh - h - cy) if cyset == 2 else cy
+    return xoff // imw, yoff // imh, (w if ex else w + xoff % imw), (h if ey else h + yoff % imh)
+
+
+def ext_check(src, dst, x, xco, yco):
+    """crop extension (do_crop_ext_zero): inside the whole-iMCU source area placed at the crop offset the blocks are the
+    source blocks, everything else (canvas, partial edge iMCU of the source in an extended direction) is zero"""
+    ncd = len(dst["comps"])
+    fac = [(1, 1)] if ncd == 1 else [(c["hs"], c["vs"]) for c in src["comps"][:ncd]]
+    mh, mv = max(f[0] for f in fac), max(f[1] for f in fac)
+    ex, ey = dst["W"] > src["W"], dst["H"] > src["H"]
+    for ci in range(ncd):
+        s_, d = src["comps"][ci], dst["comps"][ci]
+        hs, vs = fac[ci]
+        X, Y = xco * hs, yco * vs
+        cw, chh = (src["W"] // (8 * mh)) * hs, (src["H"] // (8 * mv)) * vs
+        for y in range(d["hb"]):
+            for xx in range(d["wb"]):
+                inx = (X <= xx < X + cw) if ex else True
+                iny = (Y <= y < Y + chh) if ey else True
+                sx, sy = (xx - X if ex else xx + X), (y - Y if ey else y + Y)
+                if inx and iny:
+                    if not (0 <= sx < s_["wb"] and 0 <= sy < s_["hb"]):
+                        return "comp %d block (%d,%d) of the extended image: source position (%d,%d) outside the source plane" % (ci, xx, y, sx, sy)
+                    exp = blk(s_, sx, sy)
+                else:
+                    exp = [0] * 64
+                if blk(d, xx, y) != exp:
+                    return "comp %d block (%d,%d) of the extended image is not %s" % (
+                        ci, xx, y, "source block (%d,%d)" % (sx, sy) if inx and iny else "a zero block")
+    return None
+
 
 
 def dims_check(src, dst, x):
@@ -501,6 +559,7 @@ def run(ctx):
                     cases.append((l.replace("#identity", "").strip(), "corpus", {"identity": l.endswith("#identity")}))
     cases += gen_sweep(ctx, rng)
     cases += gen_edgecrop(rng, ctx.thorough())
+    cases += gen_cropext(rng, ctx.thorough())
     cases += gen_tjgrid(rng, ctx.thorough())
     for i in range(ctx.n(4000, 40000)):
         cases.append(gen_case(rng, i))
@@ -753,7 +812,10 @@ def run_batch(ctx, cases, exes, drv, flavours, tot, base):
                                     "component%s%s" % (ci, dc["tq"], " transposed" if op in TRANSPOSING else "",
                                                        "; its slot was redefined between the source's scans" if ci in reused else "")))
                 m, xco, yco = dims_check(src, o, x)
-                m = m or spec_check(src, o, op, x[3], xco, yco)
+                if op == 0 and x[4] and (o["W"] > src["W"] or o["H"] > src["H"]):
+                    m = m or ext_check(src, o, x, xco, yco)
+                else:
+                    m = m or spec_check(src, o, op, x[3], xco, yco)
                 if m:
                     bad.append(("blocks", m))
             # tj3Transform: a crop origin is acceptable iff it lies on the iMCU grid of the DESTINATION image
@@ -796,7 +858,8 @@ def run_batch(ctx, cases, exes, drv, flavours, tot, base):
                 mbs, mres = mres.split(" ; ", 1)
             if bsl is not None:
                 vals = bsl.split()[1:]
-                if res.startswith("ok") and any(v in ("0", "-1") for v in vals):
+                is_ext = any(x[0] == 0 and x[4] and ((x[6] and x[5] > src["W"]) or (x[8] and x[7] > src["H"])) for x in xfs)
+                if res.startswith("ok") and any(v in ("0", "-1") for v in vals) and not is_ext:
                     bad.append(("bufsize", "tj3TransformBufSize() refuses (returns 0 for) a request that tj3Transform() accepts"))
                 if mbs is not None and mbs != bsl:
                     ctx.broken_tie("correspondence:tj3TransformBufSize", "model and implementation differ on %s: model=%s impl=%s" % (line[:200], mbs, bsl))
